@@ -20,13 +20,16 @@ TRUSTED_BASE = [
     'is the model author\'s reading of the SDM; the private flag chain is additionally exercised by the stress runs',
     'the body `new = old op val` of the retry loop is an arbitrary function in the theorems (its value correctness is property C01/C02); '
     'the concrete operator semantics Op.fn used to predict stress results is validated against gcc and against the snapshot single-threaded',
-    'hand-written model lean/ChibiVerif/Model/C16Qual.lean of the is_atomic bookkeeping of parse.c (declspec, declarator, typedef, '
+    'hand-written model lean/ChibiVerif/Model/C16Qual.lean of the is_atomic bookkeeping of parse.c (declspec, declarator, pointers with '
+    'its qualifier loop - `_Atomic` after a `*` marks the pointer type -, typedef, '
     'typeof, struct_members, func_params, new_cast, to_assign, new_inc_dec) and type.c (copy_type, pointer_to, array_of, add_type arms); '
-    'it works on parse trees, not tokens: tied on every run by printing each generated tree as C text (the printer is part of the Lean '
+    'it works on parse trees, not tokens (the token-level model lean/ChibiVerif/Model/C16Declr.lean of declarator / pointers / type_suffix '
+    'is proved to compute the tree semantics, C16_declarator_tokens, and the C text is printed from ITS token list): tied on every run by printing each generated tree as C text (the printer is part of the Lean '
     'driver, lean/ChibiVerif/Driver/C16QualCmd.lean) and comparing the declared types at every level (each is_atomic flag) and the shape '
     'of the update node with the AST dump of the hooked chibicc (-verif-dump-ast); the specification lean/ChibiVerif/Spec/C16QualSpec.lean '
     '(C11 6.2.5/6.3.2.1/6.5.2-6.5.6/6.7.2.4/6.7.3/6.7.6/6.7.8, C23 6.7.2.5 for typeof) is the author\'s reading of the standard, validated on '
-    'every run against clang-14 as an independent implementation (atomic instruction emitted for the update iff the specification says the lvalue is atomic)',
+    'every run against clang-14 as an independent implementation (atomic instruction emitted for the update iff the specification says the lvalue is atomic; '
+    'gcc 12 instead where clang-14 rejects the text - `+=` on an atomic pointer, `restrict` beside `_Atomic` - and the text has no typeof)',
     'hand-written model lean/ChibiVerif/Model/C16Typing.lean of the ND_CAS / ND_EXCH guards of type.c, run on every ND_CAS / ND_EXCH node '
     'of the dumped programs and on described operand types whose rejection message must match; the shared byte-exact code-generation '
     'model lean/ChibiVerif/Model/Codegen.lean (casArm, exchArm, load, store) is tied by property C20\'s assembly-text equality and here '
@@ -61,9 +64,17 @@ TYPES = [
     ('in', 'int', 4, 's', 1, 'int'), ('ui', 'unsigned int', 4, 'u', 0, 'int'),
     ('lo', 'long', 8, 's', 1, 'int'), ('ul', 'unsigned long', 8, 'u', 0, 'int'),
     ('bo', '_Bool', 1, 's', 0, 'bool'), ('pt', 'int *', 8, 'u', 0, 'ptr'),
+    ('pq', 'int *', 8, 'u', 0, 'ptr'),        # the same object type, declared `int *_Atomic x` (qualifier of the pointer declarator, /repo 1c76c1e)
     ('fl', 'float', 4, 'f', 0, 'flo'), ('db', 'double', 8, 'f', 0, 'flo'),
 ]
 TY = {t[0]: t for t in TYPES}
+
+def aty_of(tag):
+    """the atomic type as a declaration prefix: `<aty> name`, `<aty> name[5]`, `<aty> *name` are all valid"""
+    _, cty, nbytes, k, sg, cls = TY[tag]
+    if tag == 'pq':
+        return 'int *_Atomic'          # `int *_Atomic x;  int *_Atomic a[5];  int *_Atomic *p;`
+    return f'_Atomic({cty})' if cls == 'ptr' else f'_Atomic {cty}'
 
 OPS = [('add', '+='), ('sub', '-='), ('mul', '*='), ('div', '/='), ('mod', '%='), ('and', '&='), ('or', '|='),
        ('xor', '^='), ('shl', '<<='), ('shr', '>>=')]
@@ -205,7 +216,7 @@ def tie_source(tag):
     _, cty, nbytes, k, sg, cls = TY[tag]
     base = 'int' if cls == 'ptr' else None
     src = ['#include <stdatomic.h>']
-    aty = f'_Atomic({cty})' if cls == 'ptr' else f'_Atomic {cty}'
+    aty = aty_of(tag)
     src.append(f'static {aty} gs_{tag}; {aty} garr_{tag}[5];')
     src.append(f'struct S_{tag} {{ char pad; {aty} m; }}; struct S_{tag} gm_{tag};')
     funcs = []   # (name, kind, ro)
@@ -378,6 +389,34 @@ QUALIFIER_FORMS = [
     ('extern _Atomic int x; void f(void){ x++; }', 1),
     ('_Thread_local _Atomic int x; void f(void){ x++; }', 1),
     ('int g(void); _Atomic int x; void f(void){ x += g(); }', 1),
+    # `_Atomic` among the qualifiers of a pointer declarator (C11 6.7.6.1; /repo 1c76c1e): the pointer is atomic, the pointee is not
+    ('int *_Atomic p; void f(void){ p++; }', 1),
+    ('int *_Atomic p; void f(long n){ p += n; p -= 2; ++p; --p; p--; }', 5),
+    ('int *_Atomic p; int *q; void f(void){ p = q; q = p; }', 0),
+    ('int *_Atomic p; void f(void){ (*p)++; p[1] += 2; }', 0),
+    ('_Atomic int *_Atomic p; void f(void){ (*p)++; p++; }', 2),
+    ('int *_Atomic *q; void f(void){ (*q)++; q[1]--; }', 2),
+    ('int *_Atomic *q; void f(void){ q++; (**q)++; }', 0),
+    ('int **_Atomic q; void f(void){ q++; }', 1),
+    ('int *_Atomic a[3]; void f(int i){ a[i] += 2; }', 1),
+    ('int (*_Atomic a)[3]; void f(void){ a++; (*a)[1]++; }', 1),
+    ('struct S { char c; int *_Atomic m; } s; void f(struct S *q){ s.m++; q->m -= 1; }', 2),
+    ('struct N { struct N *_Atomic next; int v; } *h; void f(void){ h->next++; h->next->v++; }', 1),
+    ('typedef int *_Atomic ap; ap x; ap y[2]; ap *z; void f(void){ x++; y[1]++; (*z)++; z++; }', 3),
+    ('typedef int *ip; ip _Atomic x; _Atomic ip y; ip *_Atomic z; void f(void){ x++; y++; z++; (*z)++; }', 3),
+    ('void f(int *_Atomic p, int *_Atomic q[2]){ p++; q[0]++; q++; }', 2),
+    ('void (*_Atomic fp)(void); void g(void); void f(void){ fp = g; fp += 1; }', 1),
+    ('int *(*_Atomic fp)(void); void f(void){ fp += 1; (*fp())++; }', 1),
+    ('int *_Atomic g(void); void f(void){ (*g())++; }', 0),
+    ('void *_Atomic p; void f(void){ p += 1; }', 1),
+    ('void f(void){ static double *_Atomic l; l++; char *_Atomic m = 0; m++; }', 2),
+    ('extern long *_Atomic x; _Thread_local short *_Atomic y; void f(void){ x++; y++; }', 2),
+    ('int *const volatile restrict __restrict __restrict__ p; int *volatile q; void f(void){ q++; }', 0),
+    ('int *volatile _Atomic p; int *_Atomic volatile q; int *_Atomic _Atomic r; int *restrict _Atomic __restrict__ volatile _Atomic s; void f(void){ p++; q++; r++; s++; }', 4),
+    ('int *_Atomic (p); int *_Atomic volatile (*q); void f(void){ p++; (*q)++; }', 2),
+    ('int *p; void f(void){ (*(int *_Atomic *)&p)++; typeof(int *_Atomic) l = 0; l++; }', 2),
+    ('int *_Atomic p; typeof(p) q; typeof(&p) r; void f(void){ q++; (*r)++; }', 2),
+    ('int *_Atomic p; int f(void){ int *o = p++; return *o + *++p; }', 2),
 ]
 
 def tie(ctx, corr):
@@ -559,7 +598,7 @@ static void report(const char *name) {
 def stress_program(tag, storage, nt, iters, rng):
     """returns (source, [(phase name, predictor)]); predictor: ('fold', init, [(count, op, val)...]) | ('bits', value) | ('any',)"""
     _, cty, b, k, sg, cls = TY[tag]
-    aty = f'_Atomic({cty})' if cls == 'ptr' else f'_Atomic {cty}'
+    aty = aty_of(tag)
     obj = 'gobj' if storage == 'static' else ('hold->m' if storage == 'member' else '(*target)')
     finalbits = 'bits_of(v)' if cls != 'ptr' else '(unsigned long)(v - base)'
     head = (STRESS_HEAD.replace('ATYPE', aty).replace('TYPE', cty).replace('NTHREADS', str(nt)).replace('NITERS', str(iters))
@@ -701,7 +740,8 @@ def stress(ctx, corr, plan=None):
         for i, t in enumerate(tags[:7]):
             plan.append((t, stor[i % 4], ntq[i % len(ntq)]))
         # every width under the worst contention every time
-        for t in ('uc', 'sh', 'in', 'ul'):
+        # ... and `int *_Atomic p`: p++ / p += n / fetch_add / compare-exchange loops on a pointer made atomic by its declarator
+        for t in ('uc', 'sh', 'in', 'ul', 'pq'):
             if not any(p[0] == t for p in plan):
                 plan.append((t, rng.choice(stor), rng.choice([2, 16])))
     corr.extra['stress_plan'] = [f'{TY[t][1]}/{s}/{n}thr' for t, s, n in plan]
@@ -1095,9 +1135,9 @@ def casnodes(ctx, corr):
 # ------------------------------------------------------------------------------------------------ source sites of `is_atomic`
 
 # (file, enclosing function) -> number of lines mentioning `is_atomic`.  Model/C16Qual.lean mirrors exactly these writers
-# (declspec) and readers (to_assign, new_inc_dec, struct_members); copy_type copies the whole struct.  A new reader or writer
+# (declspec; pointers: `_Atomic` in the qualifier list after a `*`, /repo 1c76c1e) and readers (to_assign, new_inc_dec, struct_members); copy_type copies the whole struct.  A new reader or writer
 # anywhere in the compiler must be looked at before the model can be trusted again.
-ATOMIC_SITES = {('parse.c', 'declspec'): 4, ('parse.c', 'to_assign'): 2, ('parse.c', 'struct_members'): 1, ('parse.c', 'new_inc_dec'): 1,
+ATOMIC_SITES = {('parse.c', 'declspec'): 4, ('parse.c', 'pointers'): 1, ('parse.c', 'to_assign'): 2, ('parse.c', 'struct_members'): 1, ('parse.c', 'new_inc_dec'): 1,
                 ('chibicc.h', '<struct Type>'): 1, ('verif_dump.c', '<comment>'): 1, ('verif_dump.c', 'dump_type'): 1}
 
 def atomic_sites(ctx, corr):
@@ -1164,6 +1204,7 @@ def qualifier(ctx, corr, cases=None, keep_going=False):
     work = os.path.join(ctx.scratch, 'qual')
     os.makedirs(work, exist_ok=True)
     oracle_budget = [len(cases) if ctx.thorough else 260]
+    oracle_runs = [0, oracle_budget[0]]       # reference-compiler invocations so far, and their bound (3x the budget)
     todo = []
     for i, ((case, _), line) in enumerate(zip(cases, out)):
         f = dict(x.split('=', 1) for x in line.split('\t') if '=' in x)
@@ -1215,19 +1256,29 @@ def qualifier(ctx, corr, cases=None, keep_going=False):
         # specification vs an independent implementation of the C semantics (validates Spec/C16QualSpec.lean, DESIGN 3.3):
         # clang-14 compiles the same text; where it accepts, its code for f contains an atomic instruction iff the spec says
         # the updated lvalue is atomic
-        if CLANG and (spec.startswith('lv')) and oracle_budget[0] > 0:
+        if CLANG and (spec.startswith('lv')) and oracle_budget[0] > 0 and oracle_runs[0] < 3 * oracle_runs[1]:
             oracle_budget[0] -= 1
+            oracle_runs[0] += 1
+            who = 'clang-14'
             rcc, oc, ec = sh([CLANG, '-std=gnu2x', '-w', '-S', '-O0', '-o', '-', src], timeout=60)
+            if rcc != 0 and 'typeof' not in ctext:
+                # clang-14 rejects `+=` / `-=` on an atomic pointer, arithmetic on atomic function / void pointers and `restrict`
+                # beside `_Atomic`; gcc 12 accepts them.  (Not for typeof: GNU typeof drops `_Atomic`, C23 typeof keeps it.)
+                who = 'gcc'
+                rcc, oc, ec = sh(['gcc', '-std=gnu2x', '-w', '-S', '-O0', '-o', '-', src], timeout=60)
             if rcc != 0:
                 corr.count('spec-oracle:clang-rejects')
+                oracle_budget[0] += 1           # a rejected text validates nothing: does not count against the budget
             else:
                 mm = re.search(r'^f:(.*?)\.cfi_endproc', oc, re.S | re.M)
                 cbody = mm.group(1) if mm else oc
-                catomic = bool(re.search(r'\block\b|\bxchg|cmpxchg|__atomic', cbody))
-                corr.count('spec-oracle:agree' if catomic == atomic_lv else 'spec-oracle:DIFFER')
+                catomic = bool(re.search(r'\block\b|\bxchg|cmpxchg|__atomic|\bmfence', cbody))
+                corr.count(('spec-oracle:agree' if who == 'clang-14' else 'spec-oracle:agree(gcc)') if catomic == atomic_lv else 'spec-oracle:DIFFER')
+                if atomic_lv and re.search(r'\* (?:\w+ +)*_Atomic', ctext):
+                    corr.count('spec-oracle:agree:text-has-atomic-pointer-declarator')
                 if catomic != atomic_lv:
-                    corr.disagreements.append({'kind': 'specification (Spec/C16QualSpec.lean) and clang-14 differ on whether the updated lvalue is atomic',
-                                               'input': ctext, 'spec': spec, 'clang': 'atomic instruction in f' if catomic else 'no atomic instruction in f', 'case': case})
+                    corr.disagreements.append({'kind': f'specification (Spec/C16QualSpec.lean) and {who} differ on whether the updated lvalue is atomic',
+                                               'input': ctext, 'spec': spec, who: 'atomic instruction in f' if catomic else 'no atomic instruction in f', 'case': case})
                     if keep_going and len(corr.disagreements) < 6:
                         continue
                     return
@@ -1316,7 +1367,9 @@ def correspond(ctx, corr):
                  'the expected-value load, the lock cmpxchg and the failure write-back are read off the emitted registers and must all equal '
                  'sizeof(*addr) = sizeof(*old) (independent of the model).  (1d) _Atomic propagation: hand-written and generated parse trees '
                  '(typedef chains, _Atomic(T), typeof(type), typeof(expr), struct/union members incl. bit-fields and self-reference, arrays, '
-                 'pointers, parameters, functions returning pointers, static/extern/_Thread_local/block-scope objects; lvalues built with * & . -> '
+                 'pointers - every `*` with a random list of const/volatile/restrict/__restrict/__restrict__/_Atomic, so atomic POINTERS at '
+                 'every level: `int *_Atomic *q`, `int *_Atomic a[3]`, members, typedefs, parameters, `void (*_Atomic fp)(void)` -, '
+                 'parameters, functions returning pointers, static/extern/_Thread_local/block-scope objects; lvalues built with * & . -> '
                  '[] + casts calls parentheses; all 14 update operators) are printed as C by the Lean driver, compiled by the hooked chibicc, and the '
                  'declared type of every object (every level, every is_atomic flag) and the shape of the update node (compare-and-swap loop with its '
                  'width / plain member / plain deref / plain inc-dec / diagnostic) must equal the model\'s; independently the specification '
@@ -1426,7 +1479,9 @@ MANIFEST = {
                   'C16_qualifier_never_plain, C16_qualifier_accepts - for every declaration sequence and lvalue expression of the modelled syntax, '
                   'if the C semantics (C11 6.7.6/6.7.3/6.7.2.4/6.5.x, C23 typeof) makes the lvalue atomic, chibicc compiles every op=, ++, -- on '
                   'it to the compare-and-swap loop of the object\'s width or rejects it with a diagnostic (long double, struct, union), never to a '
-                  'plain load-operate-store.  The sequences are tied to the compiler on every run by text equality with chibicc -S for every '
+                  'plain load-operate-store; this includes pointers made atomic by `_Atomic` in the qualifier list of their declarator '
+                  '(C16_qualifier_atomic_pointer: 8-byte loop for every such declaration in every context; C16_declarator_tokens: the token-level '
+                  'parser with its qualifier loop computes the C11 type of every declarator).  The sequences are tied to the compiler on every run by text equality with chibicc -S for every '
                   'operator x type x storage class and every stdatomic.h macro; the typing and propagation models by the typed AST dump of the '
                   'hooked build and the diagnostics on generated operand types and generated declarations; the trusted atomicity of lock cmpxchg / '
                   'xchg / aligned mov is validated by multi-thread stress, return-value uniqueness and forced-failure runs with guard bytes.',
